@@ -23,6 +23,7 @@ const c20Owners = 3
 
 func c20ExtraOps(h *History, g *G) []*Op {
 	var out []*Op
+	h.Ext["c20-exec-planned"] = false
 	for i := 0; i < c20Owners; i++ {
 		g.Busy[h.W.Accounts[i].Addr.String()] = true
 	}
@@ -122,6 +123,24 @@ func c20ExtraOps(h *History, g *G) []*Op {
 			out = append(out, op)
 		}
 	}
+	// An order whose rate sits within a thousandth of the market is worth an execution request while it still
+	// does (the next swap on a pool-priced asset moves the market away from it).
+	if table, ok := h.Ext["c20-market"].(map[string]c20Ref); ok && !g.Busy[h.W.Bot.Addr.String()] {
+		var hair []uint64
+		for _, o := range s.SpotOrders {
+			if ref, ok := table[o.OrderPrice.BaseDenom+"/"+o.OrderPrice.QuoteDenom]; ok && len(ref.Cands) > 0 && o.OrderPrice.Rate.IsPositive() {
+				if d := ref.Cands[0].Sub(o.OrderPrice.Rate).Abs(); d.LTE(o.OrderPrice.Rate.Mul(sdkmath.LegacyNewDecWithPrec(1, 3))) {
+					hair = append(hair, o.OrderId)
+				}
+			}
+		}
+		if len(hair) > 0 && g.Int("c20/hairexec", 0, 2) > 0 {
+			h.Labels["c20-hairline-execution-requests"]++
+			g.Busy[h.W.Bot.Addr.String()] = true
+			h.Ext["c20-exec-planned"] = true // no price feed may share the block (see c20Filter)
+			out = append(out, &Op{Signer: h.W.Bot, Kind: "c20.execute_hairline", Msg: &tstypes.MsgExecuteOrders{Creator: h.W.Bot.Addr.String(), SpotOrderIds: hair}})
+		}
+	}
 	return out
 }
 
@@ -161,6 +180,9 @@ func c20Filter(h *History, g *G, op *Op) bool {
 		if strings.HasSuffix(p.MsgType, "MsgFeedPrice") || strings.HasSuffix(p.MsgType, "MsgFeedMultiplePrices") {
 			hasFeed = true
 		}
+	}
+	if planned, _ := h.Ext["c20-exec-planned"].(bool); planned {
+		hasExec = true
 	}
 	if strings.HasPrefix(op.Kind, "oracle.") && hasExec {
 		return false
@@ -350,12 +372,63 @@ func CheckC20(h *History, blk *BlockRecord) []Violation {
 			}
 		}
 	}
-	// transactions that can move a pool's reserves (and with them a pool-derived market price) inside the block
-	poolMovers := 0
-	for _, tx := range blk.Txs {
-		if tx.Code == 0 && (strings.Contains(tx.MsgType, ".amm.") || strings.Contains(tx.MsgType, ".perpetual.") || strings.Contains(tx.MsgType, ".leveragelp.") || strings.Contains(tx.MsgType, ".masterchef.") || strings.Contains(tx.MsgType, ".commitment.")) {
-			poolMovers++
+	// Transactions that move the reserves of a pool holding a given denom *inside* the block (and with them a
+	// pool-derived market price): joins / exits / pool creations with that denom, and leveraged or perpetual
+	// operations when a leveraged pool holds it. Swaps do not: they are queued and executed after every transaction.
+	moversOf := func(denoms ...string) int {
+		holds := func(poolID uint64) bool {
+			for _, snap := range []*Snapshot{prev, cur} {
+				if p := snap.Pool(poolID); p != nil {
+					for _, a := range p.PoolAssets {
+						for _, d := range denoms {
+							if a.Token.Denom == d && d != ptypes.BaseCurrency {
+								return true
+							}
+						}
+					}
+				}
+			}
+			return false
 		}
+		levHolds := false
+		for _, lp := range prev.LPPools {
+			levHolds = levHolds || holds(lp.AmmPoolId)
+		}
+		for _, pp := range prev.PerpPools {
+			levHolds = levHolds || holds(pp.AmmPoolId)
+		}
+		n := 0
+		for _, tx := range blk.Txs {
+			if tx.Code != 0 {
+				continue
+			}
+			switch m := tx.Msg.(type) {
+			case *ammtypes.MsgJoinPool:
+				if holds(m.PoolId) {
+					n++
+				}
+			case *ammtypes.MsgExitPool:
+				if holds(m.PoolId) {
+					n++
+				}
+			case *ammtypes.MsgCreatePool:
+				for _, a := range m.PoolAssets {
+					for _, d := range denoms {
+						if a.Token.Denom == d && d != ptypes.BaseCurrency {
+							n++
+						}
+					}
+				}
+			default:
+				if levHolds && (strings.Contains(tx.MsgType, ".perpetual.") || strings.Contains(tx.MsgType, ".leveragelp.") || strings.Contains(tx.MsgType, ".tradeshield.MsgExecuteOrders")) {
+					n++
+				}
+				if strings.Contains(tx.MsgType, ".amm.") && !strings.Contains(tx.MsgType, "MsgSwap") && !strings.Contains(tx.MsgType, "MsgFeedMultipleExternalLiquidity") {
+					n++ // any other amm message (parameter changes and the like): not judged
+				}
+			}
+		}
+		return n
 	}
 	// orders that left the pending set
 	executedOwner := map[string]bool{}
@@ -376,12 +449,12 @@ func CheckC20(h *History, blk *BlockRecord) []Violation {
 		if r, upd := newSpotRate[o.OrderId]; upd {
 			// the owner changed the rate earlier in this block: the condition is judged with the new rate
 			h.Labels["c20-executed-after-same-block-update"]++
-			if ref, ok := prevMarket[o.OrderPrice.BaseDenom+"/"+o.OrderPrice.QuoteDenom]; ok && !(ref.PoolPriced && poolMovers > 0) {
+			if ref, ok := prevMarket[o.OrderPrice.BaseDenom+"/"+o.OrderPrice.QuoteDenom]; ok && !(ref.PoolPriced && moversOf(o.OrderPrice.BaseDenom, o.OrderPrice.QuoteDenom) > 0) {
 				if v := ref.verdict(r, o.OrderType != tstypes.SpotOrderType_LIMITSELL); v == "false" {
 					out = append(out, Violation{Sig: "C20/executed-without-trigger", Detail: fmt.Sprintf("spot order %d (%s) executed although the reference market %v vs updated rate %s does not satisfy it (height %d)", o.OrderId, o.OrderType, ref.Cands, r, cur.Height)})
 				}
 			}
-		} else if t := spotTrig[o.OrderId]; strings.HasPrefix(t, "undecided") || (strings.Contains(t, "pool-priced") && poolMovers > 0) {
+		} else if t := spotTrig[o.OrderId]; strings.HasPrefix(t, "undecided") || (strings.Contains(t, "pool-priced") && moversOf(o.OrderPrice.BaseDenom, o.OrderPrice.QuoteDenom) > 0) {
 			// a pool-derived price moves with every swap / join / exit of the block; such blocks are not judged
 			h.Labels["c20-execution-not-judged(pool-priced)"]++
 		} else if !strings.HasPrefix(t, "true") {
